@@ -180,13 +180,14 @@ func primTy(t reflect.Type) (string, bool) {
 }
 
 var (
-	byName   = map[string]*typeInfo{}
-	byRType  = map[reflect.Type]*typeInfo{}
-	order    []string
-	visiting = map[string]bool{}
-	emitted  = map[string]bool{}
-	allNums  []uint64
-	allStrs  []string
+	byName         = map[string]*typeInfo{}
+	byRType        = map[reflect.Type]*typeInfo{}
+	order          []string
+	visiting       = map[string]bool{}
+	emitted        = map[string]bool{}
+	allNums        []uint64
+	dispatchPanics []string
+	allStrs        []string
 )
 
 func describe(name string, rt reflect.Type) *typeInfo {
@@ -347,6 +348,9 @@ func emitType(b *strings.Builder, name string) {
 		if f.dynamic && f.tagOK {
 			sel, ents, deps, note := probeDispatch(ti, f)
 			if note != "" {
+				if strings.Contains(note, "panic at") {
+					dispatchPanics = append(dispatchPanics, fmt.Sprintf("%s.%s: %s", ti.name, f.goName, strings.TrimSpace(note)))
+				}
 				fmt.Fprintf(b, "-- dispatch probe of %s.%s: %s\n", ti.name, f.goName, note)
 			}
 			for _, d := range deps {
@@ -450,6 +454,14 @@ func main() {
 	for _, n := range names {
 		emitType(&b, n)
 	}
+	b.WriteString("-- selector values at which a real BuildFieldValue call PANICKED while the tables above were being tabulated\n-- (every value 0..0x200, every enumeration constant, the 32-bit boundaries; every attribute-name constant and unknown names)\ndef dispatchPanics : List String := [")
+	for i, p := range dispatchPanics {
+		if i > 0 {
+			b.WriteString(", ")
+		}
+		b.WriteString(leanStr(p))
+	}
+	b.WriteString("]\n\n")
 	b.WriteString("def allSchemas : List SD := [\n")
 	for i, n := range names {
 		sep := ","
